@@ -341,3 +341,75 @@ func (e *e2) afterShutdown() {
 		e.violate([]string{"C13", "C20"}, "shutdown.registry", "after every bucket was deleted the registry still lists %v", rosmar.GetBucketNames())
 	}
 }
+
+// C13 (concurrent half): opens and closes of an already created bucket race; every call through
+// a handle between its open and its close must work, and once every handle is closed the
+// reference count must be exactly used up: the on-disk database is closed and unregistered,
+// and a reopen finds every acknowledged write.
+func (e *e2) judgeOpenClose(hist []*HistEntry) {
+	closed := map[int]bool{}
+	want := map[string]string{}
+	for _, h := range hist {
+		if h.Task < 0 {
+			continue
+		}
+		switch h.Op.Kind {
+		case "OpenHandle":
+			if h.Res.Err != "" {
+				e.violate([]string{"C13"}, "openclose.open-failed", "OpenBucket of the existing bucket failed while other handles were being opened and closed: %s", h.Res.ErrText)
+				return
+			}
+		case "Close":
+			closed[h.Op.Handle] = true
+		case "Set":
+			if closed[h.Op.Handle] {
+				continue
+			}
+			if h.Res.Err != "" {
+				e.violate([]string{"C13"}, "openclose.open-handle-broken", "a write through handle %d, which its owner had opened and not yet closed, failed with %s (%s): opening or closing OTHER handles must not disable it", h.Op.Handle, h.Res.Err, h.Res.ErrText)
+				return
+			}
+			want[h.Op.Key] = *h.Op.Body
+		}
+	}
+	// close whatever is still open, then the store must be shut down exactly now
+	for hi, b := range e.w.Handles {
+		if !e.closedHandles[hi] {
+			b.Close(context.Background())
+			e.closedHandles[hi] = true
+		}
+	}
+	synctest.Wait()
+	if e.p.OnDisk {
+		if n, ok := rosmar.VerifRegistryCounts()[e.w.Name]; ok {
+			e.violate([]string{"C13"}, "openclose.refcount", "every handle of the on-disk bucket has been closed but the registry still counts %d open handle(s)", n)
+			return
+		}
+		for _, n := range rosmar.GetBucketNames() {
+			if n == e.w.Name {
+				e.violate([]string{"C13"}, "openclose.refcount", "every handle of the on-disk bucket has been closed but it is still registered (its database was never closed)")
+				return
+			}
+		}
+	}
+	mode := rosmar.OpenMode(rosmar.ReOpenExisting)
+	if !e.p.OnDisk {
+		mode = rosmar.CreateOrOpen
+	}
+	b, err := rosmar.OpenBucket(e.w.URL, e.w.Name, mode)
+	if err != nil {
+		e.violate([]string{"C13", "C10"}, "openclose.reopen", "reopening the bucket after all handles were closed failed: %v", err)
+		return
+	}
+	e.w.Handles = append(e.w.Handles, b)
+	e.w.Colls = append(e.w.Colls, []sgbucket.DataStore{b.DefaultDataStore()})
+	ds := b.DefaultDataStore()
+	for _, k := range sortedKeys(want) {
+		got, _, err := ds.GetRaw(k)
+		if err != nil || string(got) != want[k] {
+			e.violate([]string{"C13"}, "openclose.data", "after closing every handle and reopening, %q reads %q (err=%v), expected %s", k, got, err, want[k])
+			return
+		}
+	}
+	e.probe("openclose.checked")
+}
